@@ -31,7 +31,8 @@ def check_dispatch_shape(analysis: Analysis) -> None:
     def from_extension(expr, depth=0) -> bool:
         """Does the expression derive from os.path.splitext(<filename>)[1] (possibly sliced / via locals)?"""
         txt = unparse(expr)
-        if "splitext" in txt and fname_p in txt:
+        # the extension of the file at hand, or of the configured main file (temp and promoted backup share it)
+        if "splitext" in txt and (fname_p in txt or "self.persistence_file" in txt):
             return True
         if depth > 4:
             return False
@@ -83,6 +84,17 @@ def file_events(s) -> List[dict]:
     """File-system relevant events of a path, in order."""
     out = []
     for i, e in enumerate(s.events):
+        if e.kind == "call" and e.name == "os.fdopen" and e.args and isinstance(e.args[0], ExtObj) and e.args[0].cls == "fd" and e.args[0].args:
+            # os.fdopen(os.open(path, flags, perm), mode): an open of `path`; truncation is decided by the flags
+            fd = e.args[0]
+            flags = fd.args[1] if len(fd.args) > 1 else fd.kwargs.get("flags")
+            argv = [fd.args[0]] + list(e.args[1:])
+            if len(argv) < 2 and "mode" in e.kwargs:
+                argv.append(e.kwargs["mode"])
+            out.append({"i": i, "name": "builtins.open", "via": "os.fdopen", "flags": flags.value if isinstance(flags, Const) and isinstance(flags.value, int) else None, "args": [a.key() if isinstance(a, V) else a for a in argv], "recv": None, "kwargs": {}, "func": e.func, "line": e.line, "facts": e.facts, "argv": argv})
+            continue
+        if e.kind == "call" and e.name == "os.open":
+            continue
         if e.kind == "call" and (e.name.startswith("os.") or e.name in ("builtins.open", "pickle.dump", "json.dump", "pickle.load", "json.load", "shutil.move") or e.name.startswith("file.")):
             out.append({"i": i, "name": e.name, "args": [a.key() if isinstance(a, V) else a for a in e.args], "recv": e.recv.key() if isinstance(e.recv, V) else None, "kwargs": {k: (v.key() if isinstance(v, V) else v) for k, v in e.kwargs.items()}, "func": e.func, "line": e.line, "facts": e.facts, "argv": list(e.args)})
         elif e.kind in ("with_enter", "with_exit"):
